@@ -130,9 +130,10 @@ EXTRA_FILES = [("utils/convert.py", "utils.convert")]
 
 
 class Program:
-    def __init__(self, root: Optional[str] = None, wide: bool = False, trees: Optional[Dict[str, ast.Module]] = None):
+    def __init__(self, root: Optional[str] = None, wide: bool = False, trees: Optional[Dict[str, ast.Module]] = None, moved: Optional[dict] = None):
         self.root = root or os.environ.get("SA_REPO", "/repo")
         self.trees = trees  # pre-parsed (normalised) module trees replacing the parse of the files
+        self.moved = moved or {}  # (module, function name) -> {q, kind, cls}: functions filed under their baseline name (normalize.recover_moves)
         self.modules: Dict[str, ModuleInfo] = {}
         self.funcs: Dict[str, FuncInfo] = {}
         self.classes: Dict[str, ClassInfo] = {}
@@ -178,6 +179,17 @@ class Program:
             self._index_module(mi)
         for ci in self.classes.values():
             ci.bases = [self._resolve_base(ci.module, b) for b in ci.node.bases]
+        for (mod, fname), info in self.moved.items():
+            mi = self.modules.get(mod)
+            fi = mi.functions.get(fname) if mi else None
+            if fi is None or info["q"] in self.funcs:
+                continue
+            self.funcs.pop(fi.qname, None)
+            fi.qname, fi.name, fi.kind = info["q"], info["q"].rsplit(".", 1)[1], info["kind"]
+            if info.get("cls") and info["cls"] in self.classes:
+                fi.cls = self.classes[info["cls"]]
+                fi.cls.methods[fi.name] = fi
+            self.funcs[fi.qname] = fi
 
     def _index_module(self, mi: ModuleInfo):
         for st in mi.tree.body:
